@@ -104,6 +104,9 @@ OpSeq == <<
     NCall("insert", <<A, NVal([t |-> "dec", sub |-> TRUE, sign |-> 0, digs |-> <<1>> \o [i \in 1..20 |-> 0], exp |-> 0]), Num(1)>>),
     NCall("insert", <<A, NUn("-", NVal([t |-> "dec", sub |-> TRUE, sign |-> 0, digs |-> <<1>> \o [i \in 1..20 |-> 0], exp |-> 0])), Num(1)>>),
     NCall("push", <<A, A>>),
+    \* more values than the entry takes: refused (TypeError), nothing is appended
+    NCall("push", <<A, Num(1), Num(2)>>),
+    NCall("insert", <<A, Num(0), Num(1), Num(2)>>),
     NCall("insert", <<A, Num(0), A>>) >>
 NOps == Len(OpSeq)
 
